@@ -29,6 +29,12 @@ NONCE = re.compile(r"<(\d+)>")
 MARKERS = ["SUCCESS", "SOLVED", "COMPLETE", "DONE", "FINISHED"]   # from the property text's "completion marker"
 
 
+class FalsyList(list):
+    """a tool_calls value that is falsy although it is not empty"""
+    def __bool__(self):
+        return False
+
+
 class AdvError(Exception):
     """Raised by a scripted adversary."""
 
@@ -328,7 +334,7 @@ class C18(Prop):
         ps = {"forever": rng.choice("1123"), "stopat": rng.choice("12") * k + rng.choice("0N"), "none": rng.choice("0N"),
               "raise": "1" * k + rng.choice("xxuqte"), "random": "".join(rng.choice("01123NxuGJ") for _ in range(n))}[fam]
         if rng.random() < 0.08:       # tool_calls as generator objects: G yields nothing (still truthy), J one call
-            ps = "".join(rng.choice("GGJ1") for _ in range(rng.randint(1, n))) + rng.choice("GJ0")
+            ps = "".join(rng.choice("GGJ1F") for _ in range(rng.randint(1, n))) + rng.choice("GJ0F")
         ts = rng.choice(["o", "o", "f", "of", "o" * k + "x", "".join(rng.choice("ooofxubwngLUP") for _ in range(n)),
                          "b", "w", "n", "g", "L", "U", "P"])
         cs = rng.choice(["r", "r", "r", "x", "u", "q", "t", "e", "ur", "xr", "qqr"])
@@ -927,6 +933,10 @@ class C18(Prop):
                     calls = [Call(i * 10 + j) for j in range(int(item))]
                     evs.append(("T", view(prompt), str(len(calls))))
                     return r, calls
+                if item == "F":       # a list that holds a call but whose __bool__ answers False: "no tool calls"
+                    r.rid = 4000 + i
+                    evs.append(("T", view(prompt), "1"))
+                    return r, FalsyList([Call(i * 10)])
                 if item in "GJ":      # tool_calls as a GENERATOR OBJECT (truthy even when it yields nothing)
                     calls = [Call(i * 10)] if item == "J" else []
                     r.rid = 3000 + i
